@@ -618,6 +618,7 @@ package table
 // A stream reader delivers one message per Read (framing: C18). nrec counts the delivered messages
 // that are records, i.e. decode to a command with a key-value pair (isRec of the message bytes).
 //@ ghostfield any.nrec Int
+//@ ghostfield any.rtotal Int
 //@ uninterp func isRec(b Bytes) Bool
 //@ iface io.Reader.Read
 //@   assumed
@@ -626,7 +627,8 @@ package table
 //@   ensures 0 <= n && n <= len(p)
 //@   ensures err == nil ==> r.nrec == old(r.nrec) + (isRec(bytesOf(p[:n])) ? 1 : 0)
 //@   ensures err != nil ==> r.nrec == old(r.nrec)
-//@   modifies r.nrec, elems(p)
+//@   ensures r.rtotal == old(r.rtotal) + n      // ghost: bytes handed out so far - also by a call that reports an error (io.Reader allows n > 0 together with io.EOF)
+//@   modifies r.nrec, r.rtotal, elems(p)
 //@ func regattapb.(*Command).Reset
 //@   assumed
 //@   params m
@@ -674,7 +676,7 @@ package table
 //@   requires m != nil && m.nh != nil && m.log != nil && reader != nil
 //@   ensures [C07.all] err == nil ==> m.nh.nelem - old(m.nh.nelem) == reader.nrec - old(reader.nrec)
 //@   before regattapb.(*Command).MarshalVT assert [C07.nonil] forall j int :: 0 <= j && j < len(m.Batch) ==> m.Batch[j] != nil
-//@   modifies reader.nrec, m.nh.lastRes, m.nh.lastErr, m.nh.lastCmd, m.nh.nelem, m.nh.nseq
+//@   modifies reader.nrec, reader.rtotal, m.nh.lastRes, m.nh.lastErr, m.nh.lastCmd, m.nh.nelem, m.nh.nseq
 //@   loop 0 invariant cmd != nil && batchCmd != nil && fresh(cmd) && fresh(batchCmd) && cmd != batchCmd && fresh(msg) && len(msg) == 4194304 && estimatedSize >= 0 && !last && backOff != nil
 //@   loop 0 invariant [C07.all.count+C18] reader.nrec - old(reader.nrec) == m.nh.nelem - old(m.nh.nelem) + len(batchCmd.Batch)
 //@   loop 0 invariant [C07.nonil] forall j int :: 0 <= j && j < len(batchCmd.Batch) ==> batchCmd.Batch[j] != nil
@@ -715,7 +717,7 @@ package table
 //@   before (*Manager).readIntoTable assert [C07.switch.fresh] id == recoveryID && recoveryID == parseU(m.store.wVal[seqKey]) && m.store.nwk[seqKey] == old(m.store.nwk[seqKey]) + 1
 //@   ensures [C07.switch.cas+C14] err == nil ==> noSlash(name) && !m.store.wDel[tkey(name)] && m.store.wVer[tkey(name)] == m.store.rPair[tkey(name)].Ver && m.store.rHas[tkey(name)] && tableOf(bytesOf(m.store.wVal[tkey(name)])).ClusterID == parseU(m.store.wVal[seqKey]) && tableOf(bytesOf(m.store.wVal[tkey(name)])).RecoverID == 0 && tableOf(bytesOf(m.store.wVal[tkey(name)])).Name == tableOf(bytesOf(m.store.rPair[tkey(name)].Value)).Name
 //@   ensures [C07.switch.all] err == nil ==> m.nh.nelem - old(m.nh.nelem) == reader.nrec - old(reader.nrec)
-//@   modifies m.store.rHas, m.store.rPair, m.store.nwk, m.store.wVal, m.store.wVer, m.store.wDel, m.store.wPrevHas, m.store.wPrev, reader.nrec, m.nh.lastRes, m.nh.lastErr, m.nh.lastCmd, m.nh.nelem, m.nh.nseq, m.nh.leaderOf
+//@   modifies m.store.rHas, m.store.rPair, m.store.nwk, m.store.wVal, m.store.wVer, m.store.wDel, m.store.wPrevHas, m.store.wPrev, reader.nrec, reader.rtotal, m.nh.lastRes, m.nh.lastErr, m.nh.lastCmd, m.nh.nelem, m.nh.nseq, m.nh.leaderOf
 
 // ---------------------------------------------------------------- read path selection (C10)
 
